@@ -121,7 +121,39 @@ func c14Amount(v *big.Int, dirty bool) (string, string) {
 	if err != nil || !bigEq(back, v) {
 		return "amount/roundtrip", sprintf("Unmarshal(%x) = %v, %v; want %v", want, back, err, v)
 	}
+	// decoded values belong to the caller (the library itself adds to decoded amounts in place): changing one must not
+	// change what the same bytes decode to next time
+	if back != nil {
+		back.Add(back, big.NewInt(5))
+		again, err2 := c.Unmarshal(want)
+		if err2 != nil || !bigEq(again, v) {
+			return "amount/decoded-value-shared", sprintf("after modifying the value decoded from %x, decoding the same bytes again gives %v (want %v)", want, again, v)
+		}
+	}
 	return "", ""
+}
+
+// c14LengthBoundaries feeds every decoder inputs whose length prefixes sit at integer boundaries.
+func c14LengthBoundaries(visit func(b []byte)) {
+	var lens [][]byte
+	for _, v := range []uint64{0, 1, 0x7f, 0x80, 1<<31 - 1, 1 << 31, 1<<32 - 1, 1 << 32, 1<<63 - 9, 1<<63 - 2, 1<<63 - 1, 1 << 63, 1<<64 - 1} {
+		lens = append(lens, putVarint(nil, v))
+	}
+	lens = append(lens, bytes.Repeat([]byte{0xff}, 10), append(bytes.Repeat([]byte{0xff}, 9), 0x01), append(bytes.Repeat([]byte{0x80}, 9), 0x00))
+	tails := [][]byte{{}, {0x00}, {0x00, 0x05, 0x01}}
+	for tag := byte(1); tag <= 8; tag++ {
+		for _, wt := range []byte{0, 2} {
+			for _, l := range lens {
+				for _, tail := range tails {
+					in := append(append([]byte{tag<<3 | wt}, l...), tail...)
+					visit(in)
+					// the same field nested in the metadata sub-message of a token
+					visit(append(append([]byte{0x12, 0x02, 0x00, 0x01, 0x22}, putVarint(nil, uint64(len(in)))...), in...))
+					visit(append([]byte{0x08, 0x01}, in...))
+				}
+			}
+		}
+	}
 }
 
 // c14AmountDecode checks decoding of an arbitrary buffer.
@@ -466,6 +498,21 @@ func TestC14(t *testing.T) {
 			}
 		}
 	}
+
+	// (i-c) length prefixes at integer boundaries, through all three decoders
+	nb := 0
+	c14LengthBoundaries(func(b []byte) {
+		nb++
+		st.Eval(1)
+		sig, acc, msg := c14Decode(b)
+		if acc {
+			st.NTEnumerated(1)
+		}
+		if sig != "" {
+			report("bytes", hx(b), sig, msg)
+		}
+	})
+	st.Exhaustive = append(st.Exhaustive, sprintf("%d inputs with boundary length prefixes / varints (0, 0x7f, 0x80, 2^31-1..2^32, 2^63-9..2^64-1, over-long varints) for every field number 1..8, top-level and nested", nb))
 
 	// (ii)+(iii) generated structured values, arbitrary bytes and mutated encodings
 	rapid.Check(t, func(rt *rapid.T) {
